@@ -80,8 +80,14 @@ def field_size_cases(thorough=False):
         for n in sizes:
             if n < 4:
                 continue
-            field = b"X: " + b"v" * (n - 3)          # a field line of exactly n bytes (without CRLF)
-            yield lim, n, b"GET / HTTP/1.1\r\n" + field + b"\r\n\r\n"
+            # field lines of exactly n bytes (without CRLF) in several spellings: the size of a field is the
+            # size of what was received, whatever optional whitespace surrounds the value
+            forms = [b"X: " + b"v" * (n - 3), b"X:" + b"v" * (n - 2)]
+            if n >= 12:
+                forms.append(b"X:   " + b"v" * (n - 9) + b" \t  ")
+                forms.append(b"X:\t" + b"v" * 2 + b" " * (n - 5))
+            for field in forms:
+                yield lim, n, b"GET / HTTP/1.1\r\n" + field + b"\r\n\r\n"
 
 
 class Meter:
